@@ -24,7 +24,7 @@ import random
 import common
 import gen
 from props import shim_common as sc
-from props import c19_api
+from props import shim_api
 
 PROPERTY = "C18"
 LEAN_MODULE = "CrCube.Props.C18"
@@ -71,14 +71,14 @@ def gen_side(rng, prefix, allow_cat=True):
         return None
     n = rng.randint(1, 4)
     idpat = rng.choice(["pos", "one", "rev", "sparse", "neg"])
-    items = c19_api.make_items(n, idpat, prefix)
+    items = shim_api.make_items(n, idpat, prefix)
     kind = rng.choice(["mr", "mr", "ca"])
-    dim = c19_api.lean_dim(items, False)
+    dim = shim_api.lean_dim(items, False)
 
     def ref(k=None):
         k = rng.randrange(n) if k is None else k
-        cls = rng.choice(c19_api.SPELLS)
-        return c19_api.spell(items, k, cls)
+        cls = rng.choice(shim_api.SPELLS)
+        return shim_api.spell(items, k, cls)
 
     def reflist(maxlen):
         out = []
